@@ -540,9 +540,12 @@ def run(ctx):
             case = {"n": n, "perm": list(range(n))[::-1], "connections": conns, "ids": "str", "srv_req_same_id": True, "via": "stdio_routed"}
             if ctx.mine():
                 exec_stdio_routed_case(ctx, case)
+    # long series of requests on the per-request API, each under a fresh id (the general read stream is drained meanwhile:
+    # it has to be consumed whatever API is used - a variant that left it unread demanded more than the transport's
+    # flow control allows and was withdrawn, see DESIGN.md 4.5)
     for n, rounds in ((1, 130), (3, 45), (2, 101)):
         case = {"n": n, "perm": list(range(n)), "connections": 1, "ids": "str", "rounds": rounds, "fresh_ids": True,
-                "main_unread": True, "via": "stdio_routed"}
+                "via": "stdio_routed"}
         if ctx.mine():
             exec_stdio_routed_case(ctx, case)
     for n in (2, 3, 4):
